@@ -8,7 +8,7 @@ export VH_ALT=/tmp/vh-alt${LANE:-}
 [ -d $T ] || git -C /repo worktree add --detach $T >/dev/null 2>&1
 for s in "$@"; do
   d=/verif/seeded/pending/$s; [ -d $d ] || d=/verif/seeded/$s
-  id=${s%%-*}
+  id=${CHECK:-${s%%-*}}
   git -C $T checkout -q --detach "$(git -C /repo rev-parse HEAD)" && git -C $T checkout -q -- . && git -C $T clean -fdq -e target
   p=$d/patch.diff; [ -f $d/patch.head.diff ] && p=$d/patch.head.diff
   if ! git -C $T apply "$p" 2>/tmp/mutval${LANE:-}/$s.apply; then echo "$s: PATCH DOES NOT APPLY"; continue; fi
